@@ -106,6 +106,29 @@ func randFsItems(rng *rand.Rand, mix fsTraceMix) []fsItem {
 		names = append(names, []string{"L"})
 	}
 	var items []fsItem
+	if mix.hostile >= 0.3 && rng.Intn(5) == 0 {
+		// one history in five (where hostile names are the subject): a directory with 33-48 children, ONE of them
+		// hostile at any position (with something below it half of the time): a name is judged wherever it stands
+		// among however many siblings
+		level := 1 + rng.Intn(3)
+		for d := 1; d <= level; d++ {
+			items = append(items, fsItem{D: d, N: [][]string{{"a"}, {"b"}, {"e"}}[rng.Intn(3)]})
+		}
+		w := 33 + rng.Intn(16)
+		at := rng.Intn(w)
+		letters := []string{"a", "b", "e", "f", "x"}
+		for k := 0; k < w; k++ {
+			if k == at {
+				items = append(items, fsItem{D: level + 1, N: fsTraceHostile[rng.Intn(len(fsTraceHostile))]})
+				if rng.Intn(2) == 0 {
+					items = append(items, fsItem{D: level + 2, N: []string{"a"}})
+				}
+				continue
+			}
+			items = append(items, fsItem{D: level + 1, N: []string{letters[k/25%5], letters[k/5%5], letters[k%5]}}) // distinct three-letter names
+		}
+		return items
+	}
 	if !manyRoots && rng.Intn(4) == 0 {
 		// one history in four: a chain of directories down to level 2-9 whose last directory holds names that are
 		// files under the usual extension lists, each with later siblings (files, then a file or a directory)
